@@ -13,6 +13,7 @@ def recur (L cap : Nat) : String :=
   | .rangeError => "RangeError;bounded;usable"
   | .done => "returned;usable"
   | .panicked => "panic"
+  | .halted => "halted"            -- `nest` holds no interrupt: never the case
 
 def handle (ws : List String) : String :=
   match ws with
